@@ -152,10 +152,14 @@ func vsizeOf(tx *bitcoin.Transaction) (int64, bool) {
 func newChain() *fakeChain { return &fakeChain{txs: map[bitcoin.Hash]*bitcoin.Transaction{}} }
 
 func (f *fakeChain) addUtxo(id int, value int64, lock []byte) *bitcoin.UnspentTransactionOutput {
-	h := bitcoin.Hash(sha256.Sum256([]byte(fmt.Sprintf("c30-flow-%d", id))))
-	f.txs[h] = &bitcoin.Transaction{Version: 1, Outputs: []*bitcoin.TransactionOutput{{Value: value, PublicKeyScript: lock}}}
+	// two consecutive ids are outputs 0,1 of one funding transaction (e.g. main UTXO + deposit)
+	h := bitcoin.Hash(sha256.Sum256([]byte(fmt.Sprintf("c30-flow-%d", id/2))))
+	if f.txs[h] == nil {
+		f.txs[h] = &bitcoin.Transaction{Version: 1, Outputs: make([]*bitcoin.TransactionOutput, 2)}
+	}
+	f.txs[h].Outputs[id%2] = &bitcoin.TransactionOutput{Value: value, PublicKeyScript: lock}
 	return &bitcoin.UnspentTransactionOutput{
-		Outpoint: &bitcoin.TransactionOutpoint{TransactionHash: h, OutputIndex: 0}, Value: value,
+		Outpoint: &bitcoin.TransactionOutpoint{TransactionHash: h, OutputIndex: uint32(id % 2)}, Value: value,
 	}
 }
 
@@ -467,9 +471,10 @@ func execSize(f []string) (string, string) {
 	pkh := bitcoin.PublicKeyHash(pubKey)
 	tags := map[string]bool{}
 	for i, in := range ins {
-		h := bitcoin.Hash(sha256.Sum256([]byte(fmt.Sprintf("c30-tx-%d", i))))
+		// three consecutive inputs are outputs 0,1,2 of one funding transaction
+		h := bitcoin.Hash(sha256.Sum256([]byte(fmt.Sprintf("c30-tx-%d", i/3))))
 		utxo := &bitcoin.UnspentTransactionOutput{
-			Outpoint: &bitcoin.TransactionOutpoint{TransactionHash: h, OutputIndex: 0},
+			Outpoint: &bitcoin.TransactionOutpoint{TransactionHash: h, OutputIndex: uint32(i % 3)},
 			Value:    int64(100000 + i),
 		}
 		var lock bitcoin.Script
@@ -488,7 +493,10 @@ func execSize(f []string) (string, string) {
 		if err != nil {
 			return "harness-error lock script", "bad"
 		}
-		fc.txs[h] = &bitcoin.Transaction{Version: 1, Outputs: []*bitcoin.TransactionOutput{{Value: utxo.Value, PublicKeyScript: lock}}}
+		if fc.txs[h] == nil {
+			fc.txs[h] = &bitcoin.Transaction{Version: 1, Outputs: make([]*bitcoin.TransactionOutput, 3)}
+		}
+		fc.txs[h].Outputs[i%3] = &bitcoin.TransactionOutput{Value: utxo.Value, PublicKeyScript: lock}
 		if in.kind == "p" || in.kind == "w" {
 			err = b.AddPublicKeyHashInput(utxo)
 		} else {
